@@ -9,6 +9,7 @@ import Tx3Proofs.C01Index
 import Tx3Proofs.C01Datum
 import Tx3Proofs.C01Field
 import Tx3Proofs.C01Optional
+import Tx3Proofs.C01Map
 #print axioms Tx3.Lang.eval_int
 #print axioms Tx3.Lang.lower_int
 #print axioms Tx3.Lang.C01_int_fragment
@@ -53,3 +54,5 @@ import Tx3Proofs.C01Optional
 #print axioms Tx3.Lang.C01_spread_field_value
 #print axioms Tx3.C01_optional_output_kept_iff
 #print axioms Tx3.C01_optional_output_error_kept
+#print axioms Tx3.Lang.C01_map_literal
+#print axioms Tx3.Lang.C01_map_literal_semantics
